@@ -882,6 +882,39 @@ func (r *sessRun) quiesce() {
 			last, stable = now, 0
 		}
 	}
+	// the disconnect hook is the last step of both close paths (after the status change): awaited, not sampled
+	if st := erpc.VerifStatus(r.sess); st == 3 || st == 5 {
+		WaitUntil(time.Second, func() bool { return r.disc.Count(r.sn) > 0 })
+		// ... and so is the return of a Close() that has reached the closed state (its observer may lag)
+		if st == 3 {
+			WaitUntil(time.Second, func() bool {
+				for name, ch := range r.fin {
+					if strings.HasPrefix(name, "close:") {
+						select {
+						case <-ch:
+						default:
+							return false
+						}
+					}
+				}
+				return true
+			})
+		}
+	}
+	// a session that has reached a closed state has completed every call: the observer goroutines that note
+	// the completions may lag behind the Close() / disconnect that caused them, so they are awaited (bounded)
+	if st := erpc.VerifStatus(r.sess); st == 3 || st == 5 {
+		WaitUntil(2*time.Second, func() bool {
+			for _, co := range r.calls {
+				select {
+				case <-co.done:
+				default:
+					return false
+				}
+			}
+			return true
+		})
+	}
 	pendingCalls := []string{}
 	for c, co := range r.calls {
 		select {
